@@ -78,14 +78,19 @@ func (b *Broadcaster[T]) Receive(channel string, ctx context.Context) (func() (*
 
 	return func() (*T, error) {
 		select {
-		case v, ok := <-c.channel:
-			if !ok {
-				return nil, ErrClosed
-			}
+		case v := <-c.channel:
 			return &v, nil
 
 		case <-ctx.Done():
 			return nil, ctx.Err()
+
+		case <-c.ctx.Done():
+			// The channel has been freed or the broadcaster has been closed
+			if err := ctx.Err(); err != nil {
+				return nil, err
+			}
+
+			return nil, ErrClosed
 		}
 	}, nil
 }
@@ -94,8 +99,8 @@ func (b *Broadcaster[T]) Free(channel string, err error) {
 	b.lock.Lock()
 	c, ok := b.channels[channel]
 	if ok {
+		// We don't close the channel here since `Publish` might still be sending to it; cancelling the context is enough
 		c.cancel(err)
-		close(c.channel)
 	}
 	delete(b.channels, channel)
 	b.lock.Unlock()
@@ -104,8 +109,8 @@ func (b *Broadcaster[T]) Free(channel string, err error) {
 func (b *Broadcaster[T]) Close(err error) {
 	b.lock.Lock()
 	for _, c := range b.channels {
+		// We don't close the channel here since `Publish` might still be sending to it; cancelling the context is enough
 		c.cancel(err)
-		close(c.channel)
 	}
 	b.channels = map[string]channelWithContext[T]{}
 	b.closed = true
